@@ -18,7 +18,7 @@ EXTENDS XorCode
 \* (FALSE) and of the tree after the corresponding "fix:" commit (TRUE); the
 \* value written here must describe /repo's current working tree.
 D2Repaired == TRUE
-D3Repaired == FALSE
+D3Repaired == TRUE
 \* xor_code.c get_failure_pattern: `num_failures` is compared with hd but never incremented
 \* (dead test; left as it is by the repair, the switch already caps at three failures)
 FailInc == 0
@@ -39,8 +39,9 @@ PQAcc(t, acc, c2, c3, tmp) ==
    THEN [acc EXCEPT !.p = ((acc.p | 2^c2) | 2^c3), !.d = (acc.d | tmp)]
    ELSE [acc EXCEPT !.p = (((acc.p | Shl1(c2 - t.k)) | Shl1(c3 - t.k))), !.d = (acc.d | tmp), !.ub = TRUE]
 \* fragments_needed_one_data_local: missing data handed to the connected-parity search
-\* (pinned: the fragment being rebuilt is NOT counted among the missing data)
-LocalMissingData(r, xd) == IF D3Repaired THEN <<r>> \o xd ELSE xd
+\* (pinned: the fragment being rebuilt is NOT counted among the missing data;
+\*  repaired: it is appended unless the caller already listed it as excluded)
+LocalMissingData(r, xd) == IF D3Repaired /\ r \notin Range(xd) THEN <<r>> \o xd ELSE xd
 
 NullL == <<-1>>   \* stands for a NULL list pointer
 IsNull(l) == l = NullL
